@@ -42,14 +42,10 @@ pub struct Itemset { pub items: ItemMap }
 impl Itemset {
     #[verifier::external_body] pub fn new(g: &YaccGrammar) -> (r: Itemset) ensures r.items.m() == Map::<Key, Seq<bool>>::empty() { unimplemented!() }
     #[verifier::external_body] pub fn clone(&self) -> (r: Itemset) ensures r.items.m() == self.items.m() { unimplemented!() }
-    // add(): the entry-API body (8 lines) is outside the dialect; this is its documented behaviour:
+    // add(): verified against this same contract (units/c02_add_contract.inc) in unit c02_add:
     // a new item gets a copy of ctx, an existing one is or-ed with it; true iff something changed
     #[verifier::external_body] pub fn add(&mut self, pidx: PIdx<$T>, dot: SIdx<$T>, ctx: &Vob) -> (r: bool)
-        requires old(self).items.m().contains_key((pidx, dot)) ==> old(self).items.m()[(pidx, dot)].len() == ctx@.len(), // OBLG: vob_or_same_length
-        ensures
-            !old(self).items.m().contains_key((pidx, dot)) ==> r && final(self).items.m() == old(self).items.m().insert((pidx, dot), ctx@),
-            old(self).items.m().contains_key((pidx, dot)) ==> final(self).items.m() == old(self).items.m().insert((pidx, dot), or_seq(old(self).items.m()[(pidx, dot)], ctx@))
-                && r == (final(self).items.m()[(pidx, dot)] != old(self).items.m()[(pidx, dot)]),
+//@use units/c02_add_contract.inc
     { unimplemented!() }
 }
 // the next key of an explicit `keys()` iterator (verified helper: index into the arbitrary-order list)
